@@ -248,6 +248,11 @@ func (d *decompressor) nextBlockAt(off int64, rs io.ReadSeeker) *decompressor {
 	d.blk.setBase(d.cr.offset())
 	d.err = d.readMember()
 	if d.err != nil {
+		// The block may still hold the data of the member it was
+		// last used for; it has none for this offset.
+		base := d.blk.Base()
+		d.blk.setOwner(d.owner)
+		d.blk.setBase(base)
 		d.wg.Done()
 		return d
 	}
